@@ -524,7 +524,7 @@ impl RandomWalk {
         let mut rng = Rng(seed);
         let prio = (0..nactors).map(|_| rng.next() | (1 << 40)).collect();
         let change_at = (0..depth).map(|_| rng.below(60)).collect();
-        RandomWalk { rng, prio, change_at, env_prob_pct: 8, uniform }
+        RandomWalk { rng, prio, change_at, env_prob_pct: 12, uniform }
     }
 }
 
